@@ -87,8 +87,6 @@ Proof.
 Qed.
 
 (* ------------------------------------------------------------------ the structure report of a module *)
-Definition wire_is (w : str) (a : acc) : bool := opt_eqb str_eqb (a_wire a) (Some w).
-
 Lemma wire_is_true w a : wire_is w a = true <-> a_wire a = Some w.
 Proof.
   unfold wire_is. destruct (a_wire a) as [x|]; simpl.
@@ -163,7 +161,7 @@ Qed.
 
 (* ------------------------------------------------------------------ frame lemmas of the state update *)
 Lemma set_val_acc_static attr v e a :
-  a_attr (set_val_acc attr v e a) = a_attr a /\ a_wire0 (set_val_acc attr v e a) = a_wire0 a /\
+  a_attr (set_val_acc attr v e a) = a_attr a /\
   a_wire (set_val_acc attr v e a) = a_wire a /\ describe_acc (set_val_acc attr v e a) = describe_acc a.
 Proof.
   unfold set_val_acc. destruct (str_eqb attr (a_attr a)); auto. destruct (a_body a) eqn:E; auto.
@@ -172,7 +170,7 @@ Qed.
 
 Lemma export_step_set_val attr v e r a : export_step r (set_val_acc attr v e a) = export_step r a.
 Proof.
-  unfold export_step. destruct (set_val_acc_static attr v e a) as (_ & _ & Hw & Hd). rewrite Hw, Hd. auto.
+  unfold export_step. destruct (set_val_acc_static attr v e a) as (_ & Hw & Hd). rewrite Hw, Hd. auto.
 Qed.
 
 Lemma export_fold_set_val attr v e accs r :
@@ -212,9 +210,8 @@ Qed.
 Lemma describe_run E ops : forall s, describe (run E s ops) = describe s.
 Proof. induction ops; intros s; simpl; auto. rewrite IHops. apply describe_step. Qed.
 
-(* ------------------------------------------------------------------ consistency: the registered name is the exported name *)
-Definition acc_consistent (mod_export : bool) (a : acc) : Prop :=
-  a_wire a = a_wire0 a /\ (mod_export = false -> a_wire0 a = None).
+(* ------------------------------------------------------------------ consistency: an unexported module exports nothing *)
+Definition acc_consistent (mod_export : bool) (a : acc) : Prop := mod_export = false -> a_wire a = None.
 Definition mod_consistent (md : modl) : Prop := Forall (acc_consistent (m_export md)) (m_accs md).
 Definition consistent (s : state) : Prop :=
   Forall mod_consistent (s_mods s) /\ NoDup (map m_name (s_mods s)).
@@ -225,8 +222,8 @@ Proof. induction l; simpl; split; intros H; try constructor; inversion H; subst;
 Lemma set_val_mod_consistent m attr v e md : mod_consistent md -> mod_consistent (set_val_mod m attr v e md).
 Proof.
   unfold mod_consistent, set_val_mod. destruct (str_eqb m (m_name md)); auto. simpl. intros H.
-  apply Forall_map_iff. eapply Forall_impl; [|exact H]. intros a [H1 H2].
-  destruct (set_val_acc_static attr v e a) as (_ & H0 & Hw & _). unfold acc_consistent. rewrite Hw, H0. auto.
+  apply Forall_map_iff. eapply Forall_impl; [|exact H]. intros a H1.
+  destruct (set_val_acc_static attr v e a) as (_ & Hw & _). unfold acc_consistent. rewrite Hw. auto.
 Qed.
 
 Lemma set_val_names s m attr v e : map m_name (s_mods (set_val s m attr v e)) = map m_name (s_mods s).
@@ -263,18 +260,10 @@ Proof.
   induction l; simpl; intros H; auto. rewrite (H a); auto. destruct (g a); auto.
 Qed.
 
-Lemma lookup0_is_find_wire md w : mod_consistent md -> lookup0 md w = find (wire_is w) (rev (m_accs md)).
-Proof.
-  intros H. unfold lookup0. apply find_ext_in. intros a Ha. apply in_rev in Ha.
-  unfold mod_consistent in H. rewrite Forall_forall in H. destruct (H a Ha) as [H1 _].
-  unfold wire0_is, wire_is. rewrite H1. auto.
-Qed.
-
 Lemma lookup0_unexported md w : mod_consistent md -> m_export md = false -> lookup0 md w = None.
 Proof.
   intros H E. unfold lookup0. apply find_none_iff. intros a Ha. apply in_rev in Ha.
-  unfold mod_consistent in H. rewrite Forall_forall in H. destruct (H a Ha) as [_ H2].
-  unfold wire0_is. rewrite (H2 E). auto.
+  unfold mod_consistent in H. rewrite Forall_forall in H. unfold wire_is. rewrite (H a Ha E). auto.
 Qed.
 
 Lemma find_mod_unique (mods : list modl) (m : str) (md : modl) :
@@ -306,8 +295,7 @@ Proof.
   intros [HC ND]. unfold described, describe, find_mod. rewrite assoc_describe.
   destruct (find (fun x => str_eqb m (m_name x)) (s_mods s)) as [md|] eqn:F.
   - rewrite (find_mod_unique _ _ _ ND F). destruct (m_export md); simpl; auto.
-    rewrite export_assoc. rewrite lookup0_is_find_wire; auto.
-    rewrite Forall_forall in HC. apply HC. apply find_some in F. tauto.
+    rewrite export_assoc. reflexivity.
   - rewrite (find_mod_none _ _ F). auto.
 Qed.
 
@@ -433,8 +421,8 @@ Proof.
 Qed.
 
 Lemma read_constant s m w g v pd c : consistent s -> described s m w = Some (DP g v pd) -> pd_constant pd = Some c ->
-  do_read s m w = reply_of (dt_export (pd_dt pd) c >>= py_list).
+  do_read s m w = RpData (with_qualifiers c).
 Proof.
   intros HC D CO. destruct (described_param _ _ _ _ _ _ HC D) as (md & a & p & F & L & B & Hd & Hr & Hc & _).
-  unfold do_read. rewrite F, L, B, Hc, CO, Hd. auto.
+  unfold do_read. rewrite F, L, B, Hc, CO. auto.
 Qed.
